@@ -495,6 +495,17 @@ Section Client.
   Definition call (c : config) (st : cstate) (envs : list xenv) : cstate * call_result * list (request * loop_result) :=
     call_loop c st (firstn (num_exchanges c) envs) 0 0 None.
 
+  (* ResetInterleavedMode: c.prev.reference = "" *)
+  Definition reset_state (st : cstate) : cstate :=
+    {| s_has := false; s_il := s_il st; s_ctx := s_ctx st; s_crx := s_crx st; s_srx := s_srx st |}.
+
+  (* MeasureClockOffsetSCION with one client and one path: the measurement is
+     stored only if its Error is nil, and FaultTolerantMidpoint is then taken
+     over the whole slice of one element, which is the zero Measurement
+     (time zero, offset 0, Error nil) if nothing was stored *)
+  Definition scion_return (cr : call_result) : call_result :=
+    match cr with CError _ => COffset 0 0 | x => x end.
+
   (* a history of one client: calls, and ResetInterleavedMode in between *)
   Inductive hop :=
   | HCall (envs : list xenv)
@@ -504,9 +515,10 @@ Section Client.
     match ops with
     | [] => []
     | HCall envs :: rest =>
-        let '(st', cr, l) := call c st envs in (cr, l) :: history c st' rest
-    | HReset :: rest =>
-        history c {| s_has := false; s_il := s_il st; s_ctx := s_ctx st; s_crx := s_crx st; s_srx := s_srx st |} rest
+        (* MeasureClockOffsetSCION first resets a client that is not in interleaved mode *)
+        let st0 := if c_scion c && negb (in_interleaved_mode c st) then reset_state st else st in
+        let '(st', cr, l) := call c st0 envs in (cr, l) :: history c st' rest
+    | HReset :: rest => history c (reset_state st) rest
     end.
 End Client.
 
